@@ -168,7 +168,8 @@ Definition process_event (f : fault) (blk init_idx : N) (x : txc) (e : event) : 
   | EUpdate u =>
     let idx := init_idx + N.of_nat (x_added x) in
     let ger := ger_hash (u_mer u) (u_rer u) in
-    let row := mkLeaf blk (u_pos u) idx (u_parent u) (u_ts u) (u_mer u) (u_rer u) ger (leaf_hash ger (u_parent u) (u_ts u)) in
+    let lh := leaf_hash ger (u_parent u) (u_ts u) in
+    let row := mkLeaf blk (u_pos u) idx (u_parent u) (u_ts u) (u_mer u) (u_rer u) ger lh in
     (* meddler.Insert(tx, "l1info_leaf", info) *)
     if big64 (u_pos u) || big64 (u_ts u) then EvFail POther (x_mem x) (x_added x) false else
     if hits f c TLeaf then EvFail PFault (x_mem x) (x_added x) false else
@@ -176,7 +177,7 @@ Definition process_event (f : fault) (blk init_idx : N) (x : txc) (e : event) : 
     then EvFail PConstraint (x_mem x) (x_added x) false else
     let c1 := bump c TLeaf in
     (* l1InfoTree.AddLeaf *)
-    match tree_add_f f c1 (d_l1 d) (x_mem x) blk (u_pos u) idx (l_hash row) with
+    match tree_add_f f c1 (d_l1 d) (x_mem x) blk (u_pos u) idx lh with
     | (mem', inl err) => EvFail err mem' (x_added x) false
     | (mem', inr (t', c2)) => EvOk (mkTx (set_leaves d (d_leaves d ++ [row]) t') (mem_commit_leaf mem') c2 (S (x_added x)))
     end
